@@ -30,8 +30,13 @@ func InitGenesis(ctx sdk.Context, k keeper.Keeper, genState types.GenesisState) 
 		}
 	}
 
-	// publish the round description for the first block
-	k.SetCurrentRoundInfo(ctx, k.CalculateNextRoundInfo(ctx))
+	// publish the round description for the first block the chain will process: block 1 of a new chain (InitChain runs at
+	// height 0), or the initial height itself when the chain is started from an export (InitChain then runs at that height)
+	prev := ctx
+	if ctx.BlockHeight() > 0 {
+		prev = ctx.WithBlockHeight(ctx.BlockHeight() - 1)
+	}
+	k.SetCurrentRoundInfo(ctx, k.CalculateNextRoundInfo(prev))
 }
 
 // ExportGenesis returns the module's exported genesis
